@@ -11,6 +11,7 @@ CONSTANTS
   Variant = "fresh"
   ElemOf <- Elem3
   CacheVariant = "stale_on_removal"
+  OwnerVariant = "keep"
 INVARIANT TypeOK
 INVARIANT ListsExactlyItsSpecies
 INVARIANT OwnerAlive
